@@ -40,8 +40,21 @@ func foreignDigError() error {
 	return sub.Invoke(func(needsAbsent) {})
 }
 
-// InjPanic is the unique value a faulted execution panics with.
-type InjPanic struct{ Fn, Exec int }
+// InjPanic is the unique value a faulted execution panics with. It is an error value (user code
+// commonly does panic(err)); with fault kind "panicdigerr" it wraps another container's dig error.
+type InjPanic struct {
+	Fn, Exec int
+	Inner    error
+}
+
+func (e *InjPanic) Error() string {
+	if e.Inner != nil {
+		return fmt.Sprintf("injected panic f%d#%d wrapping a foreign dig error: %v", e.Fn, e.Exec, e.Inner)
+	}
+	return fmt.Sprintf("injected panic f%d#%d", e.Fn, e.Exec)
+}
+
+func (e *InjPanic) Unwrap() error { return e.Inner }
 
 var (
 	errT = reflect.TypeOf((*error)(nil)).Elem()
@@ -265,26 +278,63 @@ func structOf(fields []reflect.StructField) reflect.Type {
 	return t
 }
 
+// layoutIndex: struct field index of child j (of n) of an object with layout lay.
+func layoutIndex(lay, j int) int {
+	switch lay {
+	case 1:
+		return j
+	case 3:
+		return j + 2
+	case 4:
+		if j == 0 {
+			return 0
+		}
+		return j + 1
+	}
+	return j + 1
+}
+
+var unexportedField = reflect.StructField{Name: "u", PkgPath: "digverif", Type: reflect.TypeOf(0)}
+
 // buildEnc builds the Go types of a list of encoding items and records leaf paths.
-func buildEnc(items []Enc, embed reflect.Type, embedName string, leafType func(int) reflect.Type, leafTag func(int) string, paths [][]int, prefix []int, top bool) []reflect.Type {
+// idxOf maps the position of an item to its index in the enclosing argument list or struct.
+func buildEnc(items []Enc, embed reflect.Type, embedName string, leafType func(int) reflect.Type, leafTag func(int) string, paths [][]int, prefix []int, idxOf func(int) int) []reflect.Type {
 	var types []reflect.Type
 	for i, it := range items {
-		var idx int
-		if top {
-			idx = i
-		} else {
-			idx = i + 1 // field 0 is the embedded In/Out
-		}
-		p := append(append([]int(nil), prefix...), idx)
+		p := append(append([]int(nil), prefix...), idxOf(i))
 		if it.IsObj {
-			sub := buildEnc(it.Obj, embed, embedName, leafType, leafTag, paths, p, false)
-			fields := []reflect.StructField{{Name: embedName, Type: embed, Anonymous: true}}
+			lay := it.Lay
+			if embedName != "In" && (lay == 2 || lay == 3) {
+				lay = 0
+			}
+			if lay == 4 && len(it.Obj) == 0 {
+				lay = 0
+			}
+			sub := buildEnc(it.Obj, embed, embedName, leafType, leafTag, paths, p, func(j int) int { return layoutIndex(lay, j) })
+			emb := reflect.StructField{Name: embedName, Type: embed, Anonymous: true}
+			if lay == 2 || lay == 3 {
+				emb.Tag = `ignore-unexported:"true"`
+			}
+			var children []reflect.StructField
 			for j, st := range sub {
 				tag := ""
 				if !it.Obj[j].IsObj {
 					tag = leafTag(it.Obj[j].Leaf)
 				}
-				fields = append(fields, reflect.StructField{Name: "F" + strconv.Itoa(j), Type: st, Tag: reflect.StructTag(tag)})
+				children = append(children, reflect.StructField{Name: "F" + strconv.Itoa(j), Type: st, Tag: reflect.StructTag(tag)})
+			}
+			var fields []reflect.StructField
+			switch lay {
+			case 1:
+				fields = append(append(fields, children...), emb)
+			case 2:
+				fields = append(append(append(fields, emb), children...), unexportedField)
+			case 3:
+				fields = append(append(append(fields, unexportedField), emb), children...)
+			case 4:
+				fields = append(append(append(fields, children[0]), emb), children[1:]...)
+			default:
+				fields = append(append(fields, emb), children...)
 			}
 			types = append(types, structOf(fields))
 		} else {
@@ -332,7 +382,7 @@ func (w *World) materialize(f *Fn, viaOpt bool) *mat {
 	m.pPaths = make([][]int, len(f.Params))
 	m.rPaths = make([][]int, len(f.Results))
 	m.ins = buildEnc(pe, inT, "In", func(i int) reflect.Type { return paramGoType(f.Params[i]) },
-		func(i int) string { return paramTag(f.Params[i]) }, m.pPaths, nil, true)
+		func(i int) string { return paramTag(f.Params[i]) }, m.pPaths, nil, func(i int) int { return i })
 	m.outs = buildEnc(re, outT, "Out", func(i int) reflect.Type { return resGoType(f.Results[i]) },
 		func(i int) string {
 			if viaOpt {
@@ -343,7 +393,7 @@ func (w *World) materialize(f *Fn, viaOpt bool) *mat {
 				return fmt.Sprintf(`group:%s`, strconv.Quote(r.K.Group))
 			}
 			return resTag(r)
-		}, m.rPaths, nil, true)
+		}, m.rPaths, nil, func(i int) int { return i })
 	if f.Variadic {
 		m.ins = append(m.ins, varT)
 	}
@@ -421,8 +471,11 @@ func (w *World) body(m *mat, args []reflect.Value) []reflect.Value {
 		}
 	}
 	fault := f.faultAt(exec)
-	if fault == "panic" {
-		ip := &InjPanic{f.ID, exec}
+	if fault == "panic" || fault == "panicdigerr" {
+		ip := &InjPanic{Fn: f.ID, Exec: exec}
+		if fault == "panicdigerr" {
+			ip.Inner = foreignDigError()
+		}
 		rec.Outcome, rec.Pan = "panic", ip
 		w.open = w.open[:len(w.open)-1]
 		w.logf("    panic f%d#%d", f.ID, exec)
